@@ -3,7 +3,6 @@ package main
 import (
 	"fmt"
 	"go/types"
-	"reflect"
 	"regexp"
 	"sort"
 	"strings"
@@ -107,83 +106,8 @@ func c19(c *Check) {
 	c.Trusted = []string{"go-ethereum accounts/abi: Pack maps component name via ToCamelCase to the Go field; Unpack yields an anonymous struct whose JSON key is the component name", "encoding/json field matching: tag name, else field name, case-insensitive", "go/types struct tags"}
 
 	c.Rule("C19/abi-tuple-struct", "for every (struct, ABI tuple) pair used by ABIPack/ABIDecode: each component packs from a Go field of the corresponding type (ToCamelCase(name)), decodes into a field whose JSON key equals the component name (exact or case-insensitive), and every field of the struct is covered by a component", 40)
-	tables := tupleTables(c)
 	pkg := c.P.Pkg("x/xibc/core/packet/types")
-	nPairs := 0
-	var pairNames []string
-	for _, tname := range []string{"Packet", "Acknowledgement", "Result", "EventSendPacket", "TransferData", "CallData"} {
-		tn := pkg.Type(tname)
-		if tn == nil {
-			checkerFail("anchor unresolved: type %s%s", pkT, tname)
-		}
-		st := tn.Type().Underlying().(*types.Struct)
-		for _, meth := range []string{"ABIPack", "ABIDecode"} {
-			fn := c.P.FuncOpt(pkT + tname + "." + meth)
-			if fn == nil {
-				continue
-			}
-			c.Touch(fn)
-			// which tuple global does it use?
-			var tuple string
-			for _, b := range fn.Blocks {
-				for _, ins := range b.Instrs {
-					if u, ok := ins.(*ssa.UnOp); ok {
-						if g, ok := u.X.(*ssa.Global); ok && strings.HasPrefix(g.Name(), "Tuple") {
-							tuple = g.Name()
-						}
-					}
-				}
-			}
-			comps, ok := tables[tuple]
-			if !c.Req(ok && len(comps) > 0, "C19/abi-tuple-struct", fmt.Sprintf("%s.%s uses a known tuple", tname, meth), fn.Pos(), tuple, "cannot determine the ABI tuple used by "+funcName(fn)) {
-				continue
-			}
-			nPairs++
-			pairNames = append(pairNames, tname+"."+meth+"↔"+tuple)
-			covered := map[string]bool{}
-			for _, comp := range comps {
-				goName := abiToCamel(comp.Name)
-				var fld *types.Var
-				var tag string
-				for i := 0; i < st.NumFields(); i++ {
-					if st.Field(i).Name() == goName {
-						fld = st.Field(i)
-						tag = st.Tag(i)
-					}
-				}
-				construct := fmt.Sprintf("%s.%s/%s.%s", tname, meth, tuple, comp.Name)
-				if fld == nil {
-					c.Bad("C19/abi-tuple-struct", construct, fn.Pos(), fmt.Sprintf("tuple component %q maps to Go field %q which %s does not have", comp.Name, goName, tname))
-					continue
-				}
-				covered[goName] = true
-				if meth == "ABIPack" {
-					c.Req(typeStr(fld.Type()) == abiGoType(comp.Type), "C19/abi-tuple-struct", construct, fld.Pos(), goName+" "+typeStr(fld.Type()), fmt.Sprintf("component %q has ABI type %s but field %s.%s has Go type %s", comp.Name, comp.Type, tname, goName, typeStr(fld.Type())))
-				} else {
-					// JSON key of the target field
-					key := fld.Name()
-					if j, ok := reflect.StructTag(tag).Lookup("json"); ok {
-						if n := strings.Split(j, ",")[0]; n != "" && n != "-" {
-							key = n
-						} else if n == "-" {
-							key = ""
-						}
-					}
-					c.Req(strings.EqualFold(key, comp.Name), "C19/abi-tuple-struct", construct, fld.Pos(), "json key "+key, fmt.Sprintf("ABIDecode goes through JSON with key %q (the component name) but field %s.%s is matched by JSON key %q: the value is silently dropped on decode", comp.Name, tname, goName, key))
-				}
-			}
-			for i := 0; i < st.NumFields(); i++ {
-				f := st.Field(i)
-				if !f.Exported() || strings.HasPrefix(f.Name(), "XXX_") || tname == "EventSendPacket" {
-					// EventSendPacket mirrors the contract event PacketSent(bytes packet): only Packet is ABI data,
-					// the other fields are derived indexing attributes of the cosmos event
-					continue
-				}
-				c.Req(covered[f.Name()], "C19/abi-tuple-struct", fmt.Sprintf("%s.%s/field %s covered by %s", tname, meth, f.Name(), tuple), f.Pos(), "", fmt.Sprintf("field %s.%s has no component in %s: it is outside the encoding (and outside the commitment)", tname, f.Name(), tuple))
-			}
-		}
-	}
-	c.Extra["abi_struct_pairs"] = pairNames
+	nPairs := abiTupleRule(c, "C19/abi-tuple-struct", "Packet", "Acknowledgement", "Result", "EventSendPacket", "TransferData", "CallData")
 	c.Req(nPairs >= 11, "C19/abi-tuple-struct", "pairs examined", pkg.Func("init").Pos(), fmt.Sprint(nPairs), fmt.Sprintf("only %d (struct, tuple) pairs found", nPairs))
 
 	c.Rule("C19/no-lossy-json-hop", "the JSON hop of the ABI decoders unmarshals straight into the typed target: no json.Unmarshal on the decode path targets interface{} / map[string]interface{} (numbers would pass through float64 and uint64 values above 2^53 would be rounded)", 5)
